@@ -328,11 +328,49 @@ func (x *gen) usesNode(ref string, gr *sg.Grouping, feats []string, allMods []*s
 	return u
 }
 
+// selfContained: the body refers to nothing of the module with the given prefix (groupings, identities, features), so
+// it means the same when it is written in a submodule of that module.
+func selfContained(kids []*sg.Node, prefix string) bool {
+	for _, k := range kids {
+		if k.Kind == "uses" && strings.HasPrefix(k.Name, prefix+":") {
+			return false
+		}
+		if k.Type != nil && strings.HasPrefix(k.Type.Base, prefix+":") {
+			return false
+		}
+		if len(k.IfFeatures) > 0 || strings.Contains(k.When, prefix+":") {
+			return false
+		}
+		for _, a := range k.Augments {
+			if !selfContained(a.Kids, prefix) {
+				return false
+			}
+		}
+		if !selfContained(k.Kids, prefix) {
+			return false
+		}
+	}
+	return true
+}
+
+// withSubs lists the modules, each followed by its submodule.
+func withSubs(mods []*sg.Mod, subs map[string]*sg.Mod) []*sg.Mod {
+	var out []*sg.Mod
+	for _, m := range mods {
+		out = append(out, m)
+		if s := subs[m.Name]; s != nil {
+			out = append(out, s)
+		}
+	}
+	return out
+}
+
 func genCase(t *rapid.T) Case {
 	x := &gen{g: &sg.G{T: t}}
 	g := x.g
 	nm := 2 + g.Pick(2, "nmods")
 	var mods []*sg.Mod
+	subs := map[string]*sg.Mod{}
 	var visible [][]gref // per module: groupings usable from that module, with the reference string
 	for i := 0; i < nm; i++ {
 		m := &sg.Mod{Name: fmt.Sprintf("m%d", i), Prefix: fmt.Sprintf("m%d", i)}
@@ -404,7 +442,7 @@ func genCase(t *rapid.T) Case {
 			m.Nodes = append(m.Nodes, top)
 			// two use sites may introduce the same names into one namespace (choices and cases are
 			// transparent): drop the second site when the inlined form has a sibling clash
-			if in, _, err := sg.Inline(append(append([]*sg.Mod(nil), mods...), m)); err == nil {
+			if in, _, err := sg.Inline(append(withSubs(mods, subs), m)); err == nil {
 				for _, im := range in {
 					if im.Name == m.Name && siblingClash(im.Nodes[len(im.Nodes)-1].Kids) {
 						top.Kids = top.Kids[:len(top.Kids)-1]
@@ -441,10 +479,41 @@ func genCase(t *rapid.T) Case {
 				}
 			}
 		}
+		// a submodule: some of the module's groupings are written there (other modules reach them through the import of
+		// the module), and it may have a data tree of its own that uses groupings of modules proper
+		if g.Chance(1, 3, "submodule") {
+			sm := &sg.Mod{Name: m.Name + "-sub", Prefix: m.Prefix, BelongsTo: m.Name, Imports: append([]sg.Import(nil), m.Imports...)}
+			var keep []*sg.Grouping
+			for _, gr := range m.Groupings {
+				if selfContained(gr.Kids, m.Prefix) && g.Chance(2, 3, "movegrouping") {
+					sm.Groupings = append(sm.Groupings, gr)
+				} else {
+					keep = append(keep, gr)
+				}
+			}
+			m.Groupings = keep
+			if g.Chance(1, 2, "subtree") {
+				top := &sg.Node{Kind: "container", Name: fmt.Sprintf("m%d-subtop", i)}
+				top.Kids = append(top.Kids, &sg.Node{Kind: "leaf", Name: "k", Type: &sg.TypeSpec{Name: "string"}}, &sg.Node{Kind: "leaf", Name: "enabled", Type: &sg.TypeSpec{Name: "string"}})
+				v := vis[g.Pick(len(vis), "subuses")]
+				saved, savedVis := x.idb, x.vis
+				x.idb, x.vis = "", nil
+				top.Kids = append(top.Kids, x.usesNode(v.ref, v.gr, nil, mods))
+				x.idb, x.vis = saved, savedVis
+				sm.Nodes = append(sm.Nodes, top)
+			}
+			if len(sm.Groupings) > 0 || len(sm.Nodes) > 0 {
+				m.Includes = []string{sm.Name}
+				subs[m.Name] = sm
+			} else {
+				m.Groupings = keep
+			}
+		}
 		mods = append(mods, m)
 		visible = append(visible, vis)
 	}
-	c := Case{Mods: mods}
+	allMods := withSubs(mods, subs)
+	c := Case{Mods: allMods}
 	for _, m := range mods {
 		for _, f := range m.Features {
 			if g.Chance(3, 5, "enabled") {
@@ -495,7 +564,7 @@ func genCase(t *rapid.T) Case {
 			}
 		case 0:
 			// a local node with the name of a node the grouping introduces
-			if in, _, err := sg.Inline(mods); err == nil {
+			if in, _, err := sg.Inline(allMods); err == nil {
 				for _, im := range in {
 					if im.Name == m.Name && len(im.Nodes[0].Kids) > 2 {
 						victim := im.Nodes[0].Kids[2]
